@@ -11,7 +11,7 @@ RULE = ("every string up to the length bound over alphabets of 1..4 letters (and
         "find_neighbor_pairs_index, calculate_neighbor_numbers, isdist1; nndist_hamming over all 4-letter strings x all reference subsets; "
         "non-trivial = non-empty expected neighbourhood")
 ASSUMPTIONS = ["alphabets of more than 4 letters only through the default 20-letter alphabet on short strings"]
-REQUIRED_CLASSES = {"all": ["empty-string", "homopolymer", "repeated-run", "letter-outside-alphabet", "position-subset", "default-20-letter-alphabet", "nndist-cutoff", "mixed-length-reference", "more-than-255-neighbours", "one-shot-iterator-positions"]}
+REQUIRED_CLASSES = {"all": ["empty-string", "homopolymer", "repeated-run", "letter-outside-alphabet", "position-subset", "default-20-letter-alphabet", "nndist-cutoff", "mixed-length-reference", "more-than-255-neighbours", "one-shot-iterator-positions", "neighbourhood-with-repeats"]}
 MIN_OUTCOMES = 10
 AA = "ACDEFGHIKLMNPQRSTVWY"
 
@@ -52,7 +52,7 @@ def spaces(tier):
     ]
 
 
-MIXED_REF = ["ACD", "ACDAA", "CDA", "ACDD", "AACDA", "DDDDD", "ACA"]     # lengths 3..5 around the 4-letter queries
+MIXED_REF = ["ACD", "ACDAA", "CDA", "ACDD", "AACDA", "DDDDD", "ACA"]     # lengths 3..5; queries of length 1..4
 
 
 def check_case(case, acc):
@@ -176,6 +176,16 @@ def check_case(case, acc):
                 acc.fail("calculate_neighbor_numbers/%s" % nb, case, exp_n, r)
                 return
             acc.ok()
+            # a user-supplied neighbourhood may yield a neighbour more than once: partners are still counted once
+            f_dup = (lambda y, f=f: list(f(y)) + list(f(y))[:3])
+            exp_n = [sum(1 for j, b in enumerate(set(seqs)) if dist(a, b) == 1) for a in seqs]
+            r = acc.call(pyrepseq.calculate_neighbor_numbers, seqs, neighborhood=f_dup)
+            rp = acc.call(pyrepseq.find_neighbor_pairs, seqs, f_dup)
+            acc.cls("neighbourhood-with-repeats")
+            if raised(r) or list(r) != exp_n or raised(rp) or len(rp) != len(exp_pairs) or {frozenset(p) for p in rp} != exp_pairs:
+                acc.fail("calculate_neighbor_numbers/%s/neighbourhood-with-repeats" % nb, case, {"numbers": exp_n, "pairs": len(exp_pairs)}, {"numbers": r, "pairs": rp})
+                return
+            acc.ok()
             ref = set(fam[::2])
             exp_n = [sum(1 for b in ref if dist(a, b) == 1) for a in seqs]
             r = acc.call(pyrepseq.calculate_neighbor_numbers, seqs, reference=ref, neighborhood=f)
@@ -224,7 +234,7 @@ def check_case(case, acc):
         # references of other lengths are never Hamming neighbours (an indel neighbour must not count as distance 1)
         ref = {MIXED_REF[i] for i in case[1]}
         acc.cls("mixed-length-reference")
-        for t in itertools.product("ACD", repeat=4):
+        for t in itertools.chain(*[itertools.product("ACD", repeat=L) for L in (1, 2, 3, 4)]):
             x = "".join(t)
             same = [ref_hamming(x, b) for b in ref if len(b) == len(x)]
             true = min(same) if same else float("inf")
